@@ -34,6 +34,7 @@ class Ctx:
     warns: list = field(default_factory=list)
     extra: dict = field(default_factory=dict)  # monitor-provided side observations (e.g. estimate)
     act: Counter = field(default_factory=Counter)  # activation counters
+    raw: tuple = ()  # the op as written in the alphabet (before World.xlate)
 
 
 class Step:
@@ -62,7 +63,7 @@ class Step:
             except Exception as e:  # the call was refused
                 exc = e
         post = snapshot.snap(seq, self.with_calls)
-        return Ctx(w, history, w.xlate(op), pre, post, exc, seq, ret, [str(x.message) for x in wl], extra)
+        return Ctx(w, history, w.xlate(op), pre, post, exc, seq, ret, [str(x.message) for x in wl], extra, raw=op)
 
 
 # ---- worker side -------------------------------------------------------------------------------
